@@ -212,6 +212,12 @@ func (x *Exec) VerifyFunction(fn *ssa.Function, c *Contract) {
 			st.assume(Not(Eq(v.T, TNull)))
 			st.assume(App(SBool, "<=", App(SInt, "rid", v.T), IntLit(0)))
 		}
+		// captured variables are different variables: their cells are pairwise distinct
+		for _, other := range fr.freevars {
+			if other.T.Sort == SRef && v.T.Sort == SRef {
+				st.assume(Not(Eq(other.T, v.T)))
+			}
+		}
 		fr.env[fv] = v
 		fr.freevars = append(fr.freevars, v)
 	}
